@@ -594,6 +594,13 @@ func (s *BaseNodeService) reinitDKG(message storage.Message) error {
 			break
 		}
 
+		// The replayed messages are not authenticated (their keys are gone), so
+		// they may only build the round that is being reinitialised: a message
+		// of any other round would change that round without a valid signature.
+		if msg.DkgRoundID != req.DKGID {
+			continue
+		}
+
 		// LDC-07 Messages May Be Sent to a Single Node
 		//
 		// If we remove the broadcast and send only individual messages,
